@@ -8,4 +8,18 @@ IsCmd(l) == l \in {"create", "reindex", "reindexPaths", "refusedCreate", "refuse
 BNext == Next /\ idle' = (IF IsCmd(last') THEN 0 ELSE idle + 1) /\ idle' <= MaxIdle
 BSpec        == Init /\ idle = 0 /\ [][BNext]_<<vars, idle>>
 BSpecIndexed == InitIndexed /\ idle = 0 /\ [][BNext]_<<vars, idle>>
+
+\* Directed scenario for the crash enumeration (C13): on a new day one note of an indexed page is edited (it will
+\* be stamped), a new note is added to a page (it will get a ZID), possibly one more edit, then the command.
+ScriptNext ==
+  /\ idle' = idle
+  /\ CASE steps = 0 -> NextDay
+        [] steps = 1 -> \E p \in Pages : EditBody(p, 1)
+        [] steps = 2 -> \E p \in Pages, pos \in 0..1, kp \in Kinds : AddNote(p, pos, kp, 0, 1, 1)
+        [] steps = 3 -> (\E p \in Pages : EditBody(p, 1) \/ EditBody(p, 2)) \/ (\E p \in Pages, kp \in Kinds : AddNote(p, 0, kp, 0, 1, 2))
+        [] steps = 4 -> DbReindex({}) \/ DbCreate(FALSE)
+        [] steps = 5 -> \E p \in Pages : EditBody(p, 1)
+        [] steps = 6 -> DbReindex({})
+        [] OTHER -> FALSE
+ScriptSpec == InitIndexed /\ idle = 0 /\ [][ScriptNext]_<<vars, idle>>
 =============================================================================
